@@ -3,9 +3,12 @@
    prop = the checkers of VertexCheck.v accept the observed output; prop is a function of the arguments and the observed output only
    (exact integer references for longitude/altitude, corner order, edge latitudes tied to their rows through the library's own row formula,
    centre latitude = truncated midpoint of the reported edges and strictly between them, round trip, shared faces incl. the antimeridian).
-   Domain: the property quantifies over valid IDs. A well-formed ID with zooms in 0..35 whose x, y or f is outside the grid is outside the
-   quantifier (the clamp / wrap of the public API there is neither claimed nor modelled faithfully for |x| >= 2^53): such a case is
-   answered bad_case, never a pass. The helpers' clamp / wrap is exercised through the hook entries inside a declared domain. *)
+   Domain: the property quantifies over valid IDs. Every entry is TOTAL on well-shaped arguments (lemmas *_total at the end): a well-formed ID
+   with zooms in 0..35 whose x, y or f is outside the grid is outside the quantifier but is still judged — through the documented clamp of the row
+   and wrap of the column (the same check as the hook entries, on the normalised ID) — as long as |x|, |y|, |f| <= 2^40 and x >= -2^16 * 2^h
+   (there float64(x) is exact, so the model's closed form of the wrap is the code's loop, and the loop is short); beyond that bound the entry
+   answers class "skipped" (counted separately, neither an evaluation nor a pass): the model's wrap is not faithful for |x| >= 2^53 and the
+   library's loop costs |x| / 2^h turns. *)
 From Coq Require Import ZArith String List Bool Floats.
 From SID Require Import Base Str Ids Wire F64 ExactRef PointF VertexF VertexCheck.
 Import ListNotations.
@@ -51,6 +54,12 @@ Open Scope string_scope.
   (* what the property says about the corner list of a valid ID *)
   Definition c02_prop_vertices (oracle : oracle_t) (i : eid) (o : list point) : bool :=
     check_vertices i o && check_rows (c02_rowf oracle (eh i)) i o.
+  (* outside the grid: the voxel the helpers actually describe (column wrapped, row clamped), and the bound inside which it is judged *)
+  Definition c02_norm (i : eid) : eid :=
+    mk (eh i) (ex i mod 2 ^ eh i) (Z.max 0 (Z.min (ey i) (2 ^ eh i - 1))) (ev i) (ef i).
+  Definition c02_ext_dom (i : eid) : bool :=
+    (Z.abs (ex i) <=? 2 ^ 40)%Z && (Z.abs (ey i) <=? 2 ^ 40)%Z && (Z.abs (ef i) <=? 2 ^ 40)%Z && (- (2 ^ 16 * 2 ^ eh i) <=? ex i)%Z.
+  Definition c02_skipped : verdict := mkv true true "skipped" VNil.
   Definition d_point_on_id (oracle : oracle_t) (sid : bool) (args : list val) (obs : val) : verdict :=
     match args with
     | [VS id; VZ opt] =>
@@ -63,10 +72,11 @@ Open Scope string_scope.
         | Some i =>
             if negb (check_zoom (eh i) && check_zoom (ev i)) then mkv corr (c02_err_empty obs) "-" out
             else if negb ((opt =? 0)%Z || (opt =? 1)%Z) then mkv corr (c02_err_empty obs) "-" out
-            else if negb (validb i) then bad_case            (* outside the grid: outside the property's quantifier *)
-            else let prop := match c02_as_points obs with
+            else if negb (validb i) && negb (c02_ext_dom i) then c02_skipped
+            else let j := if validb i then i else c02_norm i in      (* outside the grid: the wrapped / clamped voxel *)
+                 let prop := match c02_as_points obs with
                              | None => false
-                             | Some o => if (opt =? 0)%Z then c02_prop_vertices oracle i o else check_centre i o
+                             | Some o => if (opt =? 0)%Z then c02_prop_vertices oracle j o else check_centre j o
                              end in
                  mkv corr prop "-" out
         end
@@ -83,8 +93,9 @@ Open Scope string_scope.
         | None => mkv (is_err obs) (is_err obs) "-" (VE VNil)
         | Some i =>
             if negb (check_zoom (eh i) && check_zoom (ev i)) then mkv (is_err obs) (is_err obs) "-" (VE VNil)
-            else if negb (validb i) then bad_case
+            else if negb (validb i) && negb (c02_ext_dom i) then c02_skipped
             else
+              let j := if validb i then i else c02_norm i in
               let api o := if sid then point_on_sid_api sinhf atanf id o else point_on_eid_api sinhf atanf id o in
               let model :=
                 match api 1, api 0 with
@@ -104,7 +115,7 @@ Open Scope string_scope.
                                   | Some (c, b, mv) => c02_point_eqb c oc && String.eqb b ob && c02_points_eqb mv ov
                                   | None => false end in
                       let back := if sid then match sid_to_eid_str ob with Some e => e | None => EmptyString end else ob in
-                      let prop := check_roundtrip i back && check_centre i [oc] && c02_prop_vertices oracle i ov &&
+                      let prop := check_roundtrip j back && check_centre j [oc] && c02_prop_vertices oracle j ov &&
                                   match ov with
                                   | p0 :: _ :: p2 :: _ => check_centre_lat (plat p0) (plat p2) (plat oc)
                                   | _ => false end in
@@ -145,17 +156,17 @@ Open Scope string_scope.
     end.
 
   (* hooks: the unexported helpers getVertexOnVoxelOffset / getCenterPointOnVoxelOffset applied to (x, y, h) and the vertical point of (f, v),
-     also outside the grid (clamp of the row, wrap of the column). Declared domain: zooms 0..35, f in range, |x|, |y| <= 2^40 (the wrap loop
-     costs |x|/2^h turns and float64(x) is exact there); anything else is bad_case. prop: exact longitudes of column x mod 2^h, exact altitudes,
+     also outside the grid (clamp of the row, wrap of the column). Judged for zooms 0..35, |x|, |y|, |f| <= 2^40, x >= -2^16 * 2^h (the wrap loop
+     costs |x|/2^h turns and float64(x) is exact there); anything else is class "skipped". prop: exact longitudes of column x mod 2^h, exact altitudes,
      latitude pattern and the rows of the clamped row index. *)
   Definition c02_hook_dom (x y h f v : Z) : bool :=
-    check_zoom h && check_zoom v && (- 2 ^ v <=? f)%Z && (f <? 2 ^ v)%Z && (Z.abs x <=? 2 ^ 40)%Z && (Z.abs y <=? 2 ^ 40)%Z.
+    check_zoom h && check_zoom v && c02_ext_dom (mk h x y v f).
   Definition c02_hook_id (x y h f v : Z) : eid :=
     mk h (x mod 2 ^ h) (Z.max 0 (Z.min y (2 ^ h - 1))) v f.
   Definition d_vertex_hook (oracle : oracle_t) (centre_q : bool) (args : list val) (obs : val) : verdict :=
     match args with
     | [VZ x; VZ y; VZ h; VZ f; VZ v] =>
-        if negb (c02_hook_dom x y h f v) then bad_case
+        if negb (c02_hook_dom x y h f v) then c02_skipped
         else
           let sinhf := c02_ofun oracle "sinh" in let atanf := c02_ofun oracle "atan" in
           let alt := valt f v in let res := vres v in
@@ -171,7 +182,7 @@ Open Scope string_scope.
   Definition d_alt_hook (args : list val) (obs : val) : verdict :=
     match args with
     | [VZ f; VZ v] =>
-        if negb (check_zoom v && (- 2 ^ v <=? f)%Z && (f <? 2 ^ v)%Z) then bad_case
+        if negb (check_zoom v && (Z.abs f <=? 2 ^ 40)%Z) then c02_skipped
         else
           let a := valt f v in let r := vres v in
           match obs with
@@ -194,6 +205,33 @@ Open Scope string_scope.
         end
     | _ => bad_case
     end.
+
+(* ---- totality: on well-shaped arguments every entry returns a verdict whose class is "-" or "skipped", never "bad-case" (which the runner
+   reports as "the model cannot process this case"), whatever the observed value is ---- *)
+  Lemma d_point_on_id_total oracle sid id opt obs : v_class (d_point_on_id oracle sid [VS id; VZ opt] obs) <> "bad-case".
+  Proof.
+    unfold d_point_on_id. destruct (c02_parse sid id) as [i|]; [|cbn; discriminate].
+    destruct (negb (check_zoom (eh i) && check_zoom (ev i))); [cbn; discriminate|].
+    destruct (negb ((opt =? 0)%Z || (opt =? 1)%Z)); [cbn; discriminate|].
+    destruct (negb (validb i) && negb (c02_ext_dom i)); cbn; discriminate.
+  Qed.
+  Lemma d_roundtrip_total oracle id sid obs : v_class (d_roundtrip oracle [VS id; VB sid] obs) <> "bad-case".
+  Proof.
+    unfold d_roundtrip. destruct (c02_parse sid id) as [i|]; [|cbn; discriminate].
+    destruct (negb (check_zoom (eh i) && check_zoom (ev i))); [cbn; discriminate|].
+    destruct (negb (validb i) && negb (c02_ext_dom i)); [cbn; discriminate|].
+    cbv zeta. destruct obs as [| | | |[|pc [|[| ob | | | | | | |] [|pv [|? ?]]]]| | | |]; try (cbn; discriminate).
+    destruct (c02_as_point pc); [|cbn; discriminate]. destruct (c02_as_points pv); cbn; discriminate.
+  Qed.
+  Lemma d_vertex_hook_total oracle cq x y h f v obs : v_class (d_vertex_hook oracle cq [VZ x; VZ y; VZ h; VZ f; VZ v] obs) <> "bad-case".
+  Proof. unfold d_vertex_hook. destruct (negb (c02_hook_dom x y h f v)); cbn; discriminate. Qed.
+  Lemma d_alt_hook_total f v obs : v_class (d_alt_hook [VZ f; VZ v] obs) <> "bad-case".
+  Proof.
+    unfold d_alt_hook. destruct (negb (check_zoom v && (Z.abs f <=? 2 ^ 40)%Z)); [cbn; discriminate|].
+    destruct obs as [| | | |[|[| |oa| | | | | |] [|[| |orr| | | | | |] [|? ?]]]| | | |]; cbn; discriminate.
+  Qed.
+  Lemma d_attrs_hook_total id obs : v_class (d_attrs_hook [VS id] obs) <> "bad-case".
+  Proof. unfold d_attrs_hook. destruct (parse_eid id); cbn; discriminate. Qed.
 
 (* every entry that judges one call (or one fixed composite of calls) on its own *)
 Definition table_C02_base : table :=
